@@ -168,6 +168,8 @@ def analytic(ctx):
         A = (A + A.T) / 2
         b = rng.normal(size=nd) * 3
         c = rng.normal() * 3
+        if rng.random() < 0.3:  # an almost uniform field: large constant, small variation
+            c += float(rng.choice([-1, 1])) * 10.0 ** rng.uniform(3, 6)
         val = mag * (np.einsum("...i,ij,...j->...", S, A, S) + S @ b + c)
         grad = mag * (2 * S @ A + b) / cell          # d/dx_i
         lap = mag * float(np.sum(2 * np.diag(A) / cell**2))
@@ -226,6 +228,30 @@ def analytic(ctx):
                   lv.nvdim == nd and np.all(np.abs(lv.array - expl) <= t2),
                   operand="vector", by="position", **info)
         check_vector_laplace_mapping(ctx, v, lv, names, info)
+        # history: a field derived from v is relabelled / re-mapped afterwards.  The operand
+        # is an object of its own: its labels and its component-to-axis mapping stay, and
+        # its divergence is still the textbook one.
+        from dfmon import core
+        d0 = core.field_digest(v)
+        how = gen.pick(rng, ["diff", "neg", "scaled", "laplace", "pad", "rotate90_k4"])
+        g = {"diff": lambda: v.diff(names[0]), "neg": lambda: -v, "scaled": lambda: v * 2.0,
+             "laplace": lambda: lv,
+             "pad": lambda: v.pad({names[0]: (1, 1)}, mode="constant"),
+             "rotate90_k4": lambda: v.rotate90(names[0], names[1], k=4)}[how]()
+        old = list(g.vdims)
+        new = gen.pick(rng, [old[1:] + old[:1], old[::-1], [f"n{j}" for j in range(nd)]])
+        okr, _ = ctx.expect_ok("C05.history.relabel_accepted", setattr, g, "vdims", new,
+                               what=dict(info, derived_by=how, new_labels=new))
+        if okr and rng.random() < 0.5:
+            g.vdim_mapping = {}
+        ctx.check("C05.history.operand_keeps_labels_and_mapping", core.field_digest(v) == d0,
+                  derived_by=how, new_labels=new, operand_vdims=v.vdims,
+                  operand_mapping=dict(v.vdim_mapping), **{k: info[k] for k in ("ndim", "n", "perm")})
+        okd, dv2 = ctx.expect_ok("C05.history.div_accepted", lambda: v.div,
+                                 what=dict(info, derived_by=how, new_labels=new))
+        if okd:
+            ctx.check("C05.history.div_unchanged", np.array_equal(dv2.array, dv.array),
+                      derived_by=how, new_labels=new, **{k: info[k] for k in ("ndim", "n", "perm")})
 
 
 def check_vector_laplace_mapping(ctx, v, lv, names, info):
